@@ -867,8 +867,9 @@ class BlockBase(Base):
                         enable_where_construct_hook = False
                 continue
 
-        except FortranSyntaxError as err:
-            # We hit trouble so clean up the symbol table
+        except Exception as err:
+            # We hit trouble (a syntax error or an internal error raised by
+            # one of the sub-rules) so clean up the symbol table
             if table_name:
                 SYMBOL_TABLES.exit_scope()
                 # Remove any symbol table that we created
